@@ -529,7 +529,7 @@ pub fn run(tier: &str, rec: &Recorder) -> RunOutput {
     let start = Instant::now();
     let mut out = RunOutput::new("model_checking");
     let cap = wall_cap_s(tier);
-    let stages: Vec<(&'static str, usize)> = if tier == "quick" { vec![("mix2", 4), ("mixn3", 2)] } else { vec![("full2", 5), ("mix3", 4), ("mixn3", 4)] };
+    let stages: Vec<(&'static str, usize)> = if tier == "quick" { vec![("mix2", 4), ("mixn3", 3), ("mix3", 2)] } else { vec![("full2", 5), ("mix3", 4), ("mixn3", 4)] };
     let n_st = stages.len() as f64;
     let mut notes = vec![];
     let mut ex = true;
